@@ -229,6 +229,231 @@ theorem arith_matches (cp : Bool) (op : Op) (hop : op ∈ intOps) (da db : Nat) 
 
 
 
+/-- The arithmetic part of `arith_matches`, for ANY two operand sub-trees that evaluate to in-range values of
+    the integer type `d`: the emitted operator expression over them evaluates to numpy's wrapped exact result. -/
+theorem arith_eval (a b : Operand) (op : Op) (hop : op ∈ intOps) (d : Nat)
+    (hint : info.integer d = true) (htb : ¬ d = boolDt) (hbits : 2 ≤ info.bits d)
+    (L R : Tree) (x y : Int)
+    (el : eval info a b x y L = some (d, x)) (er : eval info a b x y R = some (d, y))
+    (hxt : inRange info d x = true) (hyt : inRange info d y = true)
+    (hdiv : op = .floordiv → y ≠ 0 ∧ ¬(x = intMin d ∧ y = -1)) :
+    eval info a b x y (arithTree info op d L R) = some (d, npInt info op d x y) := by
+  have hw : ∀ v, inRange info d v = true → wrap info d v = v := fun v hv => wrap_id info d (by omega) v hv
+  have htb' : (d == boolDt) = false := by simpa using htb
+  simp only [intOps, List.mem_cons, List.not_mem_nil, or_false] at hop
+  rcases hop with rfl | rfl | rfl | rfl
+  · simp only [arithTree, eval_bin, el, er, npInt]
+  · simp only [arithTree, eval_bin, el, er, npInt]
+  · simp only [arithTree, eval_bin, el, er, npInt]
+  · obtain ⟨hy0, hov⟩ := hdiv rfl
+    by_cases hs : info.signed d = true
+    · simp only [arithTree, hint, hs, Bool.not_true, Bool.false_eq_true, if_false, if_true, npInt]
+      -- the representable range of the signed type d
+      have hrange : ∀ v, inRange info d v = true ↔ (-(2 : Int) ^ (info.bits d - 1) ≤ v ∧ v < (2 : Int) ^ (info.bits d - 1)) := by
+        intro v; simp [inRange, hs]
+      have hwP : ∀ v, -(2 : Int) ^ (info.bits d - 1) ≤ v → v < (2 : Int) ^ (info.bits d - 1) → wrap info d v = v :=
+        fun v h1 h2 => hw v ((hrange v).2 ⟨h1, h2⟩)
+      have hP2 : (2 : Int) ≤ (2 : Int) ^ (info.bits d - 1) := by
+        have := two_pow_mono (show 1 ≤ info.bits d - 1 by omega)
+        simpa using this
+      obtain ⟨hx1, hx2⟩ := (hrange x).1 hxt
+      obtain ⟨hy1, hy2⟩ := (hrange y).1 hyt
+      have key := floordiv_correct (wrap info d) _ hwP x y hx1 hx2 hy1 hy2 hy0 (by simpa [intMin] using hov)
+      -- evaluate the emitted expression bottom-up
+      have eDiv : eval info a b x y (.bin .Div L R)
+          = some (d, wrap info d (x.tdiv y)) := by
+        simp only [eval_bin, el, er, hy0, if_false]
+      have eMul := eval_bin info a b x y .Mul (.bin .Div L R) R
+      simp only [eDiv, er] at eMul
+      have eRem := eval_bin info a b x y .Sub L
+        (.bin .Mul (.bin .Div L R) R)
+      simp only [el, eMul] at eRem
+      have eZero : eval info a b x y (.zero d) = some (d, 0) := rfl
+      have eEq := eval_bin info a b x y .Equal
+        (.bin .Sub L (.bin .Mul (.bin .Div L R) R)) (.zero d)
+      simp only [eRem, eZero] at eEq
+      have eNot := eval_un info a b x y .Not (.bin .Equal
+        (.bin .Sub L (.bin .Mul (.bin .Div L R) R)) (.zero d))
+      simp only [eEq] at eNot
+      have eLt1 := eval_bin info a b x y .Less
+        (.bin .Sub L (.bin .Mul (.bin .Div L R) R)) (.zero d)
+      simp only [eRem, eZero] at eLt1
+      have eLt2 := eval_bin info a b x y .Less R (.zero d)
+      simp only [er, eZero] at eLt2
+      rw [eval_bin, eDiv, eval_cast, eval_bin, eNot, eval_bin, eLt1, eLt2]
+      simp only [htb', hint, Bool.false_eq_true, if_false, if_true, b2i_ne_zero, one_sub_b2i_ne_zero]
+      have hb2i : ∀ c : Bool, wrap info d (b2i c) = b2i c := by
+        intro c
+        cases c
+        · exact hwP _ (by simp only [b2i]; omega) (by simp only [b2i]; omega)
+        · exact hwP _ (by simp only [b2i]; omega) (by simp only [b2i]; omega)
+      rw [hb2i]
+      have hite : ∀ (R : Int), b2i (!(R == 0) && (decide (R < 0) != decide (y < 0)))
+          = (if R ≠ 0 ∧ (decide (R < 0) != decide (y < 0)) = true then 1 else 0) := by
+        intro R
+        by_cases h0 : R = 0 <;> cases hh : (decide (R < 0) != decide (y < 0)) <;> simp [b2i, h0]
+      rw [hite]
+      dsimp only at key
+      have hfd : wrap info d (x.fdiv y) = x.fdiv y := by
+        rw [← key]; exact hw _ (wrap_inRange info d (by omega) _)
+      rw [hfd, key]
+    · simp only [arithTree, hint, hs, Bool.not_true, Bool.false_eq_true, if_false, npInt, eval_bin, el, er, hy0]
+      have hx0 : 0 ≤ x := by
+        have := hxt; simp [inRange, hs] at this; exact this.1
+      have hy0' : 0 ≤ y := by
+        have := hyt; simp [inRange, hs] at this; exact this.1
+      rw [Int.fdiv_eq_tdiv_of_nonneg hx0 hy0']
+
+
+
+
+
+/-! ## Values: a Python int on either side of an integer Var (all values) -/
+
+/-- the Var operand as the dispatcher passes it on: cast with promotion on, as it is with promotion off -/
+def varTree (tp : Bool) (t i : Nat) : Tree := if tp then .cast t (.arg i) else .arg i
+
+theorem int_scalar_shape :
+    ∀ tp ∈ [true, false], ∀ op ∈ intOps, ∀ da ∈ ints,
+      ((match dispatch info (some (tp, true)) op (.var da) (.pyInt 1) with
+        | .ok (tree, d) => tree == arithTree info op da (varTree tp da 0) (.constOf 1 da) && d == da
+        | .error _ => false) &&
+       (match dispatch info (some (tp, true)) op (.pyInt 1) (.var da) with
+        | .ok (tree, d) => tree == arithTree info op da (.constOf 0 da) (varTree tp da 1) && d == da
+        | .error _ => false) &&
+       info.integer da && da != boolDt && decide (2 ≤ info.bits da)) = true := by
+  decide +kernel
+
+theorem typeOf_pyInt_right (a : Operand) (v v' : Int) : (t : Tree) →
+    typeOf info a (.pyInt v) t = typeOf info a (.pyInt v') t
+  | .arg i => by by_cases h : i = 0 <;> simp [typeOf, h]
+  | .cast to t => by simp [typeOf, typeOf_pyInt_right a v v' t]
+  | .constOf _ _ => rfl
+  | .zero _ => rfl
+  | .un op t => by simp [typeOf, typeOf_pyInt_right a v v' t]
+  | .bin op l r => by simp [typeOf, typeOf_pyInt_right a v v' l, typeOf_pyInt_right a v v' r]
+
+theorem typeOf_pyInt_left (b : Operand) (v v' : Int) : (t : Tree) →
+    typeOf info (.pyInt v) b t = typeOf info (.pyInt v') b t
+  | .arg i => by by_cases h : i = 0 <;> simp [typeOf, h]
+  | .cast to t => by simp [typeOf, typeOf_pyInt_left b v v' t]
+  | .constOf _ _ => rfl
+  | .zero _ => rfl
+  | .un op t => by simp [typeOf, typeOf_pyInt_left b v v' t]
+  | .bin op l r => by simp [typeOf, typeOf_pyInt_left b v v' l, typeOf_pyInt_left b v v' r]
+
+theorem int_scalar_target :
+    ∀ tp ∈ [true, false], ∀ da ∈ ints,
+      ((match targetType info tp false (.var da) (.pyInt 1) with | .ok t => t == da | .error _ => false) &&
+       (match targetType info tp false (.pyInt 1) (.var da) with | .ok t => t == da | .error _ => false) &&
+       inRange info da 1) = true := by
+  decide +kernel
+
+theorem intOps_not_truediv (op : Op) (hop : op ∈ intOps) : (op == Op.truediv) = false := by
+  simp only [intOps, List.mem_cons, List.not_mem_nil, or_false] at hop
+  rcases hop with rfl | rfl | rfl | rfl <;> rfl
+
+/-- the dispatch decision does not depend on WHICH in-range Python int stands on the right -/
+theorem dispatch_pyInt_right (tp : Bool) (htp : tp ∈ [true, false]) (op : Op) (hop : op ∈ intOps) (da : Nat) (hda : da ∈ ints)
+    (v : Int) (hv : inRange info da v = true) :
+    dispatch info (some (tp, true)) op (.var da) (.pyInt v) = dispatch info (some (tp, true)) op (.var da) (.pyInt 1) := by
+  have h := int_scalar_target tp htp da hda
+  simp only [Bool.and_eq_true] at h
+  obtain ⟨⟨h1, _⟩, h1r⟩ := h
+  have e : targetType info tp false (.var da) (.pyInt v) = targetType info tp false (.var da) (.pyInt 1) := rfl
+  have hnt := intOps_not_truediv op hop
+  cases ht : targetType info tp false (.var da) (.pyInt 1) with
+  | error err => simp [ht] at h1
+  | ok t =>
+    simp only [ht, beq_iff_eq] at h1
+    subst h1
+    simp only [intOps, List.mem_cons, List.not_mem_nil, or_false] at hop
+    rcases hop with rfl | rfl | rfl | rfl <;>
+      simp [dispatch, hnt, e, ht, promoteTarget, Operand.constLike, hv, h1r, typeOf_pyInt_right (.var t) v 1, bind, Except.bind]
+
+theorem dispatch_pyInt_left (tp : Bool) (htp : tp ∈ [true, false]) (op : Op) (hop : op ∈ intOps) (da : Nat) (hda : da ∈ ints)
+    (v : Int) (hv : inRange info da v = true) :
+    dispatch info (some (tp, true)) op (.pyInt v) (.var da) = dispatch info (some (tp, true)) op (.pyInt 1) (.var da) := by
+  have h := int_scalar_target tp htp da hda
+  simp only [Bool.and_eq_true] at h
+  obtain ⟨⟨_, h1⟩, h1r⟩ := h
+  have e : targetType info tp false (.pyInt v) (.var da) = targetType info tp false (.pyInt 1) (.var da) := rfl
+  have hnt := intOps_not_truediv op hop
+  cases ht : targetType info tp false (.pyInt 1) (.var da) with
+  | error err => simp [ht] at h1
+  | ok t =>
+    simp only [ht, beq_iff_eq] at h1
+    subst h1
+    simp only [intOps, List.mem_cons, List.not_mem_nil, or_false] at hop
+    rcases hop with rfl | rfl | rfl | rfl <;>
+      simp [dispatch, hnt, e, ht, promoteTarget, Operand.constLike, hv, h1r, typeOf_pyInt_left (.var t) v 1, bind, Except.bind]
+
+theorem eval_varTree (tp : Bool) (a b : Operand) (d i : Nat) (va vb : Int)
+    (hint : info.integer d = true) (htb : ¬ d = boolDt) (hbits : 2 ≤ info.bits d)
+    (hop : (if i = 0 then a else b) = .var d)
+    (hr : inRange info d (if i = 0 then va else vb) = true) :
+    eval info a b va vb (varTree tp d i) = some (d, if i = 0 then va else vb) := by
+  have htb' : (d == boolDt) = false := by simpa using htb
+  cases tp
+  · simp [varTree, eval, hop]
+  · simp [varTree, eval, hop, hint, htb', wrap_id info d (by omega) _ hr]
+
+/-- **`x <op> v` for a Python int `v` on the RIGHT of an integer Var** (`+ - * //`, either promotion setting,
+    constant promotion on): for every value `x` the Var can hold and every `v` representable in the Var's
+    type (other `v` are numpy's and spox's OverflowError), the emitted tree evaluates to numpy's wrapped
+    exact result in the Var's own element type (numpy's weak-scalar rule). -/
+theorem arith_scalar_right (tp : Bool) (htp : tp ∈ [true, false]) (op : Op) (hop : op ∈ intOps)
+    (da : Nat) (hda : da ∈ ints) (x v : Int)
+    (hx : inRange info da x = true) (hv : inRange info da v = true)
+    (hdiv : op = .floordiv → v ≠ 0 ∧ ¬(x = intMin da ∧ v = -1)) :
+    ∃ tree, dispatch info (some (tp, true)) op (.var da) (.pyInt v) = .ok (tree, da) ∧
+      eval info (.var da) (.pyInt v) x v tree = some (da, npInt info op da x v) := by
+  have h := int_scalar_shape tp htp op hop da hda
+  simp only [Bool.and_eq_true, decide_eq_true_eq, bne_iff_ne, ne_eq] at h
+  obtain ⟨⟨⟨⟨hr, _⟩, hint⟩, htb⟩, hbits⟩ := h
+  rw [dispatch_pyInt_right tp htp op hop da hda v hv]
+  cases hdisp : dispatch info (some (tp, true)) op (.var da) (.pyInt 1) with
+  | error e => simp [hdisp] at hr
+  | ok p =>
+    obtain ⟨tree, d⟩ := p
+    simp only [hdisp, Bool.and_eq_true, beq_iff_eq] at hr
+    obtain ⟨rfl, rfl⟩ := hr
+    refine ⟨_, rfl, ?_⟩
+    apply arith_eval _ _ op hop d hint htb hbits _ _ x v _ _ hx hv hdiv
+    · exact eval_varTree tp _ _ d 0 x v hint htb hbits rfl hx
+    · simp [eval, hint]
+
+/-- **`v <op> y` for a Python int `v` on the LEFT** (the reflected operators): same statement, operands in
+    numpy's order (`v - y`, `v // y`). -/
+theorem arith_scalar_left (tp : Bool) (htp : tp ∈ [true, false]) (op : Op) (hop : op ∈ intOps)
+    (da : Nat) (hda : da ∈ ints) (v y : Int)
+    (hv : inRange info da v = true) (hy : inRange info da y = true)
+    (hdiv : op = .floordiv → y ≠ 0 ∧ ¬(v = intMin da ∧ y = -1)) :
+    ∃ tree, dispatch info (some (tp, true)) op (.pyInt v) (.var da) = .ok (tree, da) ∧
+      eval info (.pyInt v) (.var da) v y tree = some (da, npInt info op da v y) := by
+  have h := int_scalar_shape tp htp op hop da hda
+  simp only [Bool.and_eq_true, decide_eq_true_eq, bne_iff_ne, ne_eq] at h
+  obtain ⟨⟨⟨⟨_, hl⟩, hint⟩, htb⟩, hbits⟩ := h
+  rw [dispatch_pyInt_left tp htp op hop da hda v hv]
+  cases hdisp : dispatch info (some (tp, true)) op (.pyInt 1) (.var da) with
+  | error e => simp [hdisp] at hl
+  | ok p =>
+    obtain ⟨tree, d⟩ := p
+    simp only [hdisp, Bool.and_eq_true, beq_iff_eq] at hl
+    obtain ⟨rfl, rfl⟩ := hl
+    refine ⟨_, rfl, ?_⟩
+    apply arith_eval _ _ op hop d hint htb hbits _ _ v y _ _ hv hy hdiv
+    · simp [eval, hint]
+    · exact eval_varTree tp _ _ d 1 v y hint htb hbits rfl hy
+
+-- non-vacuity: -7 // 2 on an int32 Var (dtype 2) with the Python int on the right; 7 - x on the left
+example : ∃ tree, dispatch info (some (true, true)) .floordiv (.var 2) (.pyInt 2) = .ok (tree, 2) ∧
+    eval info (.var 2) (.pyInt 2) (-7) 2 tree = some (2, -4) := by
+  obtain ⟨tree, h1, h2⟩ := arith_scalar_right true (by simp) .floordiv (by simp [intOps]) 2 (by simp [ints]) (-7) 2
+    (by decide +kernel) (by decide +kernel) (fun _ => ⟨by omega, by omega⟩)
+  exact ⟨tree, h1, by rw [h2]; decide +kernel⟩
+
+
 /-! ## Expressions: dispatch is history-free, so agreement with numpy composes
 
 An expression over Vars is built by successive operator applications; every application dispatches on
